@@ -55,15 +55,58 @@ class FastNetlist(Netlist):
     def settle(self):
         ev = self.ev
         ev.execute(self.comb)
+        n = 0
         while ev.commit():
             ev.execute(self.comb)
+            n += 1
+            if n > 2000:    # a changed implementation with a combinational loop must not hang the check
+                raise RuntimeError("combinational logic does not settle (oscillating combinational loop)")
 
 
-def build_sram(dw, depth, aw, ro=False, burst=False, init=None):
+def build_sram(dw, depth, aw, ro=False, burst=False, init=None, from_memory=False):
+    """`from_memory`: hand SRAM a ready-made Memory object (its other constructor path); read-only is then
+    announced through the memory's `bus_read_only` attribute, as LiteX ROM helpers do."""
     top = Top()
     top.master = wishbone.Interface(data_width=dw, adr_width=aw, bursting=burst)
-    top.submodules.sram = wishbone.SRAM(depth * (dw // 8), read_only=ro, init=init, bus=top.master)
+    if from_memory:
+        from migen import Memory
+        mem = Memory(dw, depth, init=init)
+        if ro:
+            mem.bus_read_only = True
+        top.submodules.sram = wishbone.SRAM(mem, bus=top.master)
+    else:
+        top.submodules.sram = wishbone.SRAM(depth * (dw // 8), read_only=ro, init=init, bus=top.master)
     return top
+
+
+def build_direct(kind, dw, aw):
+    """Equal-width paths: `Converter` with equal widths and `Cache(cachesize=0)` are plain connections."""
+    top = Top()
+    top.master = wishbone.Interface(data_width=dw, adr_width=aw)
+    top.slave = wishbone.Interface(data_width=dw, adr_width=aw)
+    if kind == "converter":
+        top.submodules.conv = wishbone.Converter(top.master, top.slave)
+    else:
+        top.submodules.cache = wishbone.Cache(0, top.master, top.slave)
+    return top
+
+
+def build_soc_glue(bus_dw, master_dw, bursting, ram_size, rom_size, ram_init, rom_init, master_addressing="word"):
+    """The path users take: SoC.add_ram (SRAM sized from bytes, read_only from the region mode, bursting from the
+    bus), bus.add_master -> add_adapter (Converter / addressing conversion chosen by the glue), finalize
+    (interconnect + decoders).  Returns the SoC with `.master` = the external master port."""
+    from litex.build.generic_platform import Pins
+    from litex.build.sim import SimPlatform
+    from litex.soc.integration.soc_core import SoCMini
+    plat = SimPlatform("SIM", [("sys_clk", 0, Pins(1)), ("sys_rst", 0, Pins(1))])
+    soc = SoCMini(plat, clk_freq=int(1e6), bus_data_width=bus_dw, bus_bursting=bursting)
+    soc.add_ram("ram0", 0x20000000, ram_size, contents=list(ram_init), mode="rwx")
+    soc.add_ram("rom0", 0x30000000, rom_size, contents=list(rom_init), mode="rx")
+    m = wishbone.Interface(data_width=master_dw, address_width=32, addressing=master_addressing, bursting=bursting)
+    soc.bus.add_master(name="ext", master=m)
+    soc.master = m
+    soc.finalize()
+    return soc
 
 
 def build_conv(dwm, dws, awm):
@@ -138,9 +181,9 @@ def ref_remap(dw, aw, origin, size, regions, addressing="word"):
     return f
 
 
-def build_wb2csr(dw, aw, register, caw=14):
+def build_wb2csr(dw, aw, register, caw=14, addressing="word"):
     top = Top()
-    top.master = wishbone.Interface(data_width=dw, adr_width=aw)
+    top.master = wishbone.Interface(data_width=dw, adr_width=aw, addressing=addressing)
     top.csr = csr_bus.Interface(data_width=dw, address_width=caw)
     top.submodules.bridge = wishbone.Wishbone2CSR(bus_wishbone=top.master, bus_csr=top.csr, register=register)
     return top
@@ -185,12 +228,14 @@ class MasterMemMonitor:
     (incrementing burst not continued, wrong next address), it stops judging (`void`)."""
 
     def __init__(self, nb, total_bytes, init_bytes=None, max_wait=64, adr_map=None, bursts=False,
-                 write_mask_all=False, read_only=False, init_fn=None, byte_map=None):
+                 write_mask_all=False, read_only=False, init_fn=None, byte_map=None, ro_ranges=(), backing=None):
         self.nb = nb
         self.total = total_bytes
         self.ref = dict(enumerate(init_bytes or []))
         self.init_fn = init_fn
         self.byte_map = byte_map      # (word address, lane) -> byte address of the flat memory
+        self.ro_ranges = list(ro_ranges)   # byte ranges [lo, hi) of read-only memories: writes are ignored
+        self.backing = backing        # RefSlave behind a non-buffering adapter: its memory must equal the reference
         self.max_wait = max_wait
         self.adr_map = adr_map or (lambda a: a)
         self.bursts = bursts
@@ -244,7 +289,18 @@ class MasterMemMonitor:
             if not self.read_only:
                 for lane in range(self.nb):
                     if (sel >> lane) & 1 or (self.write_mask_all and sel != 0):
-                        self.ref[self.byte_addr(adr, lane)] = (dat >> (8 * lane)) & 0xFF
+                        ba = self.byte_addr(adr, lane)
+                        if not any(lo <= ba < hi for lo, hi in self.ro_ranges):
+                            self.ref[ba] = (dat >> (8 * lane)) & 0xFF
+            if self.backing is not None:
+                # the adapter buffers nothing: after a completed write the slave-side memory is byte for byte
+                # the reference (a write that touched an unselected or foreign byte is caught here even if the
+                # master never reads that byte back)
+                for ba, v in self.backing.mem.items():
+                    exp = self.ref[ba] if ba in self.ref else (self.init_fn(ba) if self.init_fn else 0)
+                    if v != exp:
+                        return ("after write adr=%#x sel=%#x: slave-side memory byte %#x holds %#04x, a flat byte "
+                                "memory holds %#04x (write touched a byte it must not)" % (adr, sel, ba, v, exp))
             return None
         for lane in range(self.nb):
             if (sel >> lane) & 1:
